@@ -672,11 +672,10 @@ def fam_c(b, thorough):
     two = [p for p in SELF_PARAMS if p is not None and p[0] != "cb" and p != ("ref", True, ("write",))] + [("dopt", N("St")), ("opt", ("ref", False, ("str", "str"))), G.CALLBACKS[2]]
     if not thorough:
         two = [("ref", False, ("slice", "u8")), ("opt", ("ref", False, ("slice", "u8"))), ("ref", False, ("str", "str")), ("opt", OP_REF), N("St"), ("opt", N("St")), N("SB")]
-    if True:
-        for p1 in two:
-            for p2 in two:
-                b.add("c", m=method(b.mname(), selff="&self", params=[("x", p1), ("y", p2)], ret=P("u8")), pos="two params")
-            b.add("c", m=method(b.mname(), selff="&self", params=[("x", p1), ("y", P("f64")), ("z", p1), ("w", ("ref", True, ("write",)))]), pos="three params and write")
+    for p1 in two:
+        for p2 in two:
+            b.add("c", m=method(b.mname(), selff="&self", params=[("x", p1), ("y", p2)], ret=P("u8")), pos="two params")
+        b.add("c", m=method(b.mname(), selff="&self", params=[("x", p1), ("y", P("f64")), ("z", p1), ("w", ("ref", True, ("write",)))]), pos="three params and write")
     cbs = [G.CALLBACKS[1], G.CALLBACKS[2], G.CALLBACKS[4], G.CALLBACKS[7]]
     for selff in (None, "&self"):
         for c1 in cbs:
